@@ -109,7 +109,7 @@ class Group(object):
                  loops=None, normalise=False, defines=(), cbmc=(), solver='sat', timeout=600,
                  tier='quick', malloc_fail=None, expect_min=1, must_have=(), covers=('end',),
                  what='', scope=None, replay=None, unwind=None, gen=None, functions=(),
-                 instances=None, apply_loops=None, extra_instrument=(), object_bits=None, cover_solver=False, shards=None, weight=1):
+                 instances=None, apply_loops=None, extra_instrument=(), object_bits=None, cover_solver=False, shards=None, weight=1, thorough_for=()):
         self.gid = gid
         self.props = list(props)
         self.kind = kind
@@ -142,6 +142,7 @@ class Group(object):
         self.object_bits = (12 if kind == 'B' else None) if object_bits is None else object_bits
         self.cover_solver = cover_solver
         self.weight = weight
+        self.thorough_for = list(thorough_for)   # properties for which this group runs in the thorough tier only
         self.shards = 1 if shards is None else shards
 
 
